@@ -360,3 +360,15 @@ Proof.
     apply hstate_eqb_eq in Hs. apply negb_true_iff in Hend. apply bytes_eqb_eq in Hn, Han.
     cbv zeta. auto.
 Qed.
+
+(* the scripting-disabled reading: same length (marker spans stay valid), noscript bodies become markup *)
+Lemma without_scripting_aux_length s : forall k, length (without_scripting_aux k s) = length s.
+Proof. induction s as [|c t IH]; intros k; simpl; [reflexivity | rewrite IH; reflexivity]. Qed.
+Lemma without_scripting_length s : length (without_scripting s) = length s.
+Proof. apply without_scripting_aux_length. Qed.
+Example without_scripting_example :
+  without_scripting (B "<noscript><a zq>k</a></NoScript>") = B "<noscr1pt><a zq>k</a></NoScr1pt>" /\
+  placement_ok (B "<noscript><a zq>k</a></noscript>") [(13, 2)]%nat = true /\
+  placement_ok_without_scripting (B "<noscript><a zq>k</a></noscript>") [(13, 2)]%nat = false /\
+  placement_ok_without_scripting (B "<noscript><a title='zq'>k</a></noscript>") [(20, 2)]%nat = true.
+Proof. vm_compute. repeat split. Qed.
